@@ -68,6 +68,13 @@ def axis_case(kind, decl, coords, bounded, rng, tier):
     # coordinate function itself
     for i in ([0, 1, 2, 3, 7, 10, 99, 1000, 9999] if kind == 'sampled' else list(range(min(len(coords), 5)))):
         lines.append('posat %d' % i)
+    # … and the axis getter, also from a start index other than 0
+    if kind in ('sampled', 'range'):
+        n = len(coords) if kind == 'range' else 400
+        for count, start in ((5, 0), (7, 1), (12, 3), (400, 1), (3, 100), (0, 2)):
+            if kind == 'range' and start + count > n:
+                count, start = max(0, min(count, n - 1)), min(start, 1)
+            lines.append('axisv %d %d' % (count, start))
     return Case(lines, 'gen:' + kind)
 
 def cases(tier, seed, rng):
